@@ -7,3 +7,31 @@ package curves
 //@ iface (c SpeedCurve).Evaluate() (value int, err error)
 //@   ensures[C06.range C07] err == nil ==> 0 <= value && value <= 255
 //@   modifies each(*LinearSpeedCurve).Value, each(*FunctionSpeedCurve).Value, each(*PidSpeedCurve).Value, each(*util.PidLoop).integral, each(*util.PidLoop).error, each(*util.PidLoop).lastTime, procWorld, started, lastReadFailed
+
+// ---- registry ---------------------------------------------------------------------------------------
+//@ ghost var curveReg gset[string]
+//@ opaque func GetSpeedCurve
+//@   returns (c, ok)
+//@   ensures id in curveReg ==> ok && c != nil
+//@   modifies nothing
+//@   trusted "registry lookup (concurrent map): a registered id yields its curve object"
+
+//@ func (*LinearSpeedCurve).SetValue
+//@   ensures c.Value == value
+//@   modifies c.Value
+//@ func (*FunctionSpeedCurve).SetValue
+//@   ensures c.Value == value
+//@   modifies c.Value
+//@ func (*PidSpeedCurve).SetValue
+//@   ensures c.Value == value
+//@   modifies c.Value
+
+
+//@ func (*LinearSpeedCurve).Evaluate
+//@   props C06
+//@   requires c.Config.Linear != nil && c.Config.Linear.Sensor in sensorReg && c.Config.Linear.Sensor in sensorFinite
+//@   requires c.Config.Linear.Steps != nil ==> util.stepsOK(c.Config.Linear.Steps)
+//@   requires c.Config.Linear.Steps == nil ==> c.Config.Linear.Min < c.Config.Linear.Max && -1000000 <= c.Config.Linear.Min && c.Config.Linear.Max <= 1000000
+//@   ensures[C06.range] err == nil && 0 <= value && value <= 255
+//@   ensures[C06.current] c.Value == value
+//@   modifies c.Value
